@@ -122,6 +122,35 @@ def step(x, p):
             Or(new_entry, len(f._name_map) == nent))
 
 
+def fresh(x, p):
+    """The state the constructor sets up satisfies the invariant the step
+    lemma starts from (empty map, counter 0, no sharing between factories):
+    a second factory made in the same process (p8tool luamin a.p8 b.p8) is
+    not influenced by the first."""
+    keep_all = x.bool('keep_all')
+    # concrete names (the constructor's own dict is used, un-modelled, so
+    # that sharing between instances stays visible)
+    names = [b'foo', b'bar', b'a', b'b', b'print']
+    n1 = x.choice('n1', names)
+    n2 = x.choice('n2', names)
+    f1 = F(keep_all_names=keep_all)
+    x.check('a new factory starts with an empty map and counter 0',
+            And(len(f1._name_map) == 0, f1._next_name_id == 0))
+    a1 = f1.get_short_name(n1)
+    a2 = f1.get_short_name(n2)
+    f2 = F(keep_all_names=keep_all)
+    x.check('a second factory starts empty as well',
+            And(len(f2._name_map) == 0, f2._next_name_id == 0))
+    b2 = f2.get_short_name(n2)
+    b1 = f2.get_short_name(n1)
+    x.out('names', [a1, a2, b2, b1])
+    x.check('two input names share an output name only if they are equal '
+            '(first cart)', (a1 == a2) == (n1 == n2))
+    x.check('two input names share an output name only if they are equal '
+            '(second cart, names met in the other order)',
+            (b1 == b2) == (n1 == n2))
+
+
 def sdict_factories(x, w):
     """In symbolic mode give every name factory of the writer a map that
     compares symbolic keys by equality (a real dict would hash them)."""
@@ -193,4 +222,5 @@ HARNESSES = [
     Harness('label', label, quick=[dict(Q, L=1), dict(Q, L=2)],
             thorough=[dict(Q, L=3)]),
     Harness('keepfile', keepfile, quick=[Q]),
+    Harness('fresh', fresh, quick=[dict(Q, L=2)]),
 ]
